@@ -133,6 +133,7 @@ func (eng *Engine) Load(patterns []string) error {
 		}
 	}
 	eng.indexCallSigs()
+	eng.scanConstGlobals()
 	return nil
 }
 
@@ -515,11 +516,23 @@ func (eng *Engine) VerifyFunc(fn *ssa.Function, c *Contract) (res *FuncResult) {
 			pre := x.evalEntryBool(st2, cl)
 			x.oblige(st2, clauseName(cl), cl.Props, Not(pre), "normal return although "+cl.Src)
 		}
-		x.frameCheck(st2, fr2, x.entryHeap, x.entryWM, c.ByKind("modifies"), x.entryHeap, "frame")
+		if !modifiesAnything(c) {
+			x.frameCheck(st2, fr2, x.entryHeap, x.entryWM, c.ByKind("modifies"), x.entryHeap, "frame")
+		}
 		x.queries = append(x.queries, &Query{Name: key + "/smoke.return", Detail: "a normal return is reachable", Assume: append([]Term(nil), st2.pc...), Goal: TFalse, Decls: x.decls, ExpectSat: true})
 	}
 	x.runFrom(st, fn.Blocks[0], 0)
 	return res
+}
+
+// modifiesAnything: `modifies anything` declares no frame (callers lose the whole heap).
+func modifiesAnything(c *Contract) bool {
+	for _, cl := range c.ByKind("modifies") {
+		if strings.TrimSpace(cl.Src) == "anything" {
+			return true
+		}
+	}
+	return false
 }
 
 func setList(m map[string]bool) []string {
